@@ -65,7 +65,7 @@ fn is_zero32(img: &[u8; HSIZE], off: usize) -> bool {
 //@ prop=C36 tier=quick kind=hold
 //@ enc=InstructionHeader::approve (via verif_hooks::approve), InstructionHeader::{is_approved, approved_at, apporver}, InstructionFlagContainer::{get_flag, set_flag}
 //@ bound=every 224-byte header image, every 32-byte approver key, every i64 clock value; a second approval with any key and any later clock value; unwind 34
-//@ stubs=Clock::get returns the arbitrary unix_timestamp drawn by the harness (stubs::set_clock; slot fixed to 0); alloc::fmt::format, sol_log, CoreError::name and Display for CoreError do nothing
+//@ stubs=Clock::get returns the arbitrary unix_timestamp drawn by the harness (stubs::set_clock; any slot); alloc::fmt::format, sol_log, CoreError::name and Display for CoreError do nothing
 //@ args=--default-unwind,34
 #[kani::proof]
 #[kani::stub(<anchor_lang::prelude::Clock as anchor_lang::prelude::SolanaSysvar>::get, crate::stubs::clock_get)]
@@ -86,7 +86,7 @@ fn c36_approve_at_most_once_records_approver_and_time() {
     let key: [u8; 32] = kani::any();
     let approver = Pubkey::new_from_array(key);
     let now: i64 = kani::any();
-    crate::stubs::set_clock(now, 0);
+    crate::stubs::set_clock(now, kani::any());
 
     let r = verif_hooks::approve(&mut h, approver);
 
@@ -117,7 +117,7 @@ fn c36_approve_at_most_once_records_approver_and_time() {
         // a second approval (any key, any time) is refused and changes nothing
         let after = words(&h);
         let key2: [u8; 32] = kani::any();
-        crate::stubs::set_clock(kani::any(), 0);
+        crate::stubs::set_clock(kani::any(), kani::any());
         let r2 = verif_hooks::approve(&mut h, Pubkey::new_from_array(key2));
         assert!(r2.is_err(), "C36: second approval accepted");
         assert!(same_image(&words(&h), &after), "C36: refused approval changed the header");
@@ -140,7 +140,7 @@ fn c36_approve_at_most_once_records_approver_and_time() {
 //@ prop=C36 tier=quick kind=hold
 //@ enc=InstructionHeader::{is_executable, approved_at, is_approved}
 //@ bound=every 224-byte header image (approved or not, any i64 approval time), every u32 delay, every i64 clock value; unwind 34
-//@ stubs=Clock::get returns the arbitrary unix_timestamp drawn by the harness (stubs::set_clock; slot fixed to 0)
+//@ stubs=Clock::get returns the arbitrary unix_timestamp drawn by the harness (stubs::set_clock; any slot)
 //@ args=--default-unwind,34
 #[kani::proof]
 #[kani::stub(<anchor_lang::prelude::Clock as anchor_lang::prelude::SolanaSysvar>::get, crate::stubs::clock_get)]
@@ -148,7 +148,7 @@ fn c36_executable_iff_approved_and_delay_elapsed() {
     let (h, img) = any_header();
     let delay: u32 = kani::any();
     let now: i64 = kani::any();
-    crate::stubs::set_clock(now, 0);
+    crate::stubs::set_clock(now, kani::any());
     let r = h.is_executable(delay);
     assert!(r.is_ok());
     let got = *r.as_ref().unwrap();
